@@ -17,7 +17,7 @@ func init() {
 			if tier == "quick" {
 				return 12000
 			}
-			return 300000
+			return 900000
 		},
 		Rule: "case = a hostile history (as C01, weighted to deletes landing on bf^h and bf^h+1 sizes, deletion of top-layer keys, delete-to-empty) persisted at random points and at the end, each Root{Link,Height,Size} compared with the tree built from the model's entries alone by the independent canonical builder (own encoder, BLAKE2b, CRC layers, height rule quoted from the property); plus, per case, a second history reaching the same contents by another route (permuted inserts / superset-then-delete / rebuild after emptying) whose root must be identical; non-trivial = final height >= 1 AND (history contains a delete OR the pair differs in order); distinct by (config, final contents)",
 		Assumptions: []string{
